@@ -218,11 +218,11 @@ func checkC08(r *Result) {
 	}
 	// ---- RANGE-SHAPE
 	type spec struct {
-		fn     string
-		chain  string
-		bound  string // which step carries the timestamp bound
-		pred   string // first | skipFlagged | countToIndex
-		tsArg  string
+		fn    string
+		chain string
+		bound string // which step carries the timestamp bound
+		pred  string // first | skipFlagged | countToIndex
+		tsArg string
 	}
 	specs := []spec{
 		{"(x/oracle/keeper.Keeper).GetTimestampBefore", "NewPrefixedPairRange EndExclusive Descending", "EndExclusive", "first", "param:3:time.Time"},
